@@ -24,6 +24,7 @@ type Program struct {
 	Specs    map[string]*SpecFun
 	Axioms   map[string][]Clause
 	Immutable []string
+	MutableGlobals map[string]bool // globals stored to outside package initialisers
 	RepoDir  string
 }
 
@@ -82,6 +83,29 @@ func Load(repo string) (*Program, error) {
 		P.Funcs[funcKey(fn)] = fn
 	}
 	sort.Slice(P.AllFuncs, func(i, j int) bool { return P.AllFuncs[i].String() < P.AllFuncs[j].String() })
+	P.MutableGlobals = map[string]bool{}
+	for _, fn := range P.AllFuncs {
+		if fn.Name() == "init" && fn.Parent() == nil {
+			continue
+		}
+		// anonymous functions called from init are part of initialisation
+		top := fn
+		for top.Parent() != nil {
+			top = top.Parent()
+		}
+		inInit := top.Name() == "init" && fn != top
+		for _, b := range fn.Blocks {
+			for _, in := range b.Instrs {
+				st, ok := in.(*ssa.Store)
+				if !ok {
+					continue
+				}
+				if g, ok := st.Addr.(*ssa.Global); ok && !inInit {
+					P.MutableGlobals[g.Pkg.Pkg.Path()+"."+g.Name()] = true
+				}
+			}
+		}
+	}
 	// closures bound to package-level variables through val.Fun / val.LazyFun
 	for _, p := range P.ByPath {
 		init := p.Func("init")
